@@ -1213,3 +1213,11 @@ m('U1-walk-ignores-surplus-leaves', 'C15', 'U1', 'PyTreeSpec::WalkImpl/leaf-coun
         throw py::value_error("Too many leaves for PyTreeSpec.");
     }
 """, "")
+m('N6-joined-accessor-applies-the-right-operand-first', 'C04', 'N6', 'PyTreeAccessor.__add__/accessor', 'optree/accessor.py',
+  """            return self.__class__((*self, *other))""",
+  """            return self.__class__((*other, *self))""")
+m('N6-slice-of-an-accessor-is-a-plain-tuple', 'C04', 'N6', 'PyTreeAccessor.__getitem__/slice', 'optree/accessor.py',
+  """        if isinstance(index, slice):
+            return self.__class__(super().__getitem__(index))
+        return super().__getitem__(index)""",
+  """        return super().__getitem__(index)""")
